@@ -313,7 +313,11 @@ func combinePoints(points *encoding.Uint64Map, nss *Namespaces, goroutines int, 
 	}
 	buffers := make([][]byte, goroutines)
 	for i := range buffers {
-		buffers[i] = make([]byte, points.MaxBucketLength())
+		// Combining re-encodes each reference as a delta against different
+		// primary namespaces, which can take up to 13 bytes for a reference
+		// that took 3 in the scratch map (including its entry header), plus
+		// the lengths of the two lists.
+		buffers[i] = make([]byte, 5*points.MaxBucketLength()+32)
 	}
 	references := make([]PointReferences, goroutines)
 	for i := range references {
